@@ -48,7 +48,31 @@ def main():
     if a.replay:
         sys.exit(mod.replay(a.pid, a.replay))
     watchdog(a.pid, a.tier)
-    sys.exit(mod.run(a.pid, a.tier))
+    try:
+        rc = mod.run(a.pid, a.tier)
+    except SystemExit:
+        raise
+    except BaseException:  # noqa
+        # an exception of the machinery itself (seen once, under an eleven-fold parallel load) says nothing about the
+        # property: keep the traceback and run the check once more; a second exception ends the check with exit code 2
+        import traceback
+        tb = traceback.format_exc()
+        sys.stderr.write(tb)
+        try:
+            verif = os.path.dirname(os.path.dirname(os.path.abspath(__file__)))
+            with open(os.path.join(verif, "replays", "%s-machinery-error.txt" % a.pid), "w") as f:
+                f.write(tb)
+        except Exception:  # noqa
+            pass
+        sys.stderr.write("check machinery raised an exception; running the %s check of %s once more\n" % (a.tier, a.pid))
+        try:
+            rc = mod.run(a.pid, a.tier)
+        except SystemExit:
+            raise
+        except BaseException:  # noqa
+            traceback.print_exc()
+            sys.exit(2)
+    sys.exit(rc)
 
 
 def watchdog(pid, tier):
